@@ -160,6 +160,30 @@ SPECS += [
 ]
 
 
+def _integ_get_data(kind, interp, fields, args):
+    f = {"data": RDATA, "_prev_time": "Int"}
+    f.update(fields)
+    return dict(
+        lean=f"TimeIntegrationAdapter__get_data_{kind}", path="adapters/time_integration.py",
+        qual="TimeIntegrationAdapter._get_data", group="Integ", fields=f, params={"time": "Int"},
+        ignore_params=["_target"], ret="Rat",
+        calls={"check_time": CHECK_TIME_CALL,
+               "self._interpolate": {"lean": interp, "args": ["self.data", "self._prev_time"] + args + [0], "ret": "Rat"},
+               "self._clear_cached_data": {"lean": "TimeCachingAdapter__clear_cached_data", "args": ["self.data", 0],
+                                           "stmt": True, "updates": ["data"]}},
+        props=["C12"])
+
+
+SPECS += [
+    # ---- adapters/time_integration.py : the whole `_get_data` (range check, integral, eviction by the *previous*
+    #      request, `_prev_time` advanced afterwards) (C12) ---------------------------------------------------------
+    _integ_get_data("avg", "AvgOverTime__interpolate", {"_step": "Opt[Rat]"}, ["self._step"]),
+    _integ_get_data("sum", "SumOverTime__interpolate",
+                    {"_step": "Opt[Rat]", "_per_time": "Bool", "_initial_interval": "Int"},
+                    ["self._step", "self._per_time", "self._initial_interval"]),
+]
+
+
 def by_group():
     g = {}
     for s in SPECS:
